@@ -7,6 +7,8 @@ ordinal, value, virtual timestamp, closing flag.
 """
 from collections import namedtuple
 
+import math as _math
+
 import numpy as _np
 
 Rec = namedtuple('Rec', ['k', 'n', 'v', 't', 'c'])
@@ -122,6 +124,11 @@ _k('rv_zero', 'rec')(lambda r: [0.0, -0.0, 0, False, ''][r.v % 5])            # 
 _k('rv_nest', 'rec')(lambda r: ((r.v % 2, (r.v % 3,)), frozenset([r.v % 2])))
 _k('rv_np', 'rec')(lambda r: _np.int64(r.v % 3))                 # `!=` on numpy scalars answers numpy.bool_
 _k('rv_npf', 'rec')(lambda r: _np.float64((r.v % 3) / 2))
+# predicate values that are not equal to themselves; type 'rec_nan' keeps them away from group_by/distinct (whose
+# statements speak about ==): only split (C06, "differs by !=") uses them
+_k('rv_nan', 'rec_nan')(lambda r: _math.nan if r.v % 3 == 0 else r.v % 3)          # the one shared nan object
+_k('rv_nan_fresh', 'rec_nan')(lambda r: float('nan') if r.v % 2 == 0 else 1.0)     # a new nan object every time
+_k('rv_nanfresh_none', 'rec')(lambda r: float('nan') if r.v % 3 == 0 else (None if r.v % 3 == 1 else 1.0))   # a new nan object each time: its own group under ==
 _k('rn_div3', 'rec')(lambda r: 'run-%d' % (r.n // 3))
 _k('pk0', 'pair')(lambda p: p[0] % 3)
 _k('fk', 'float')(lambda v: int(v) % 3)
@@ -152,6 +159,32 @@ def _mk_deque():
     return deque()
 
 
+class AccObj(object):
+    """A plain user-defined accumulator: hashable (by identity) and mutable."""
+
+    def __init__(self):
+        self.n = 0
+        self.total = 0
+        self.seen = []
+
+    def __canon__(self):
+        return (self.n, self.total, list(self.seen))
+
+
+def _obj_add(acc, i):
+    acc.n += 1
+    acc.total += i
+    acc.seen.append(i)
+    return acc
+
+
+def _tupobj_add(acc, i):
+    acc[0].n += 1
+    acc[0].total += i
+    acc[0].seen.append(i)
+    return (acc[0], acc[1] + 1)
+
+
 # name -> (fn, item_type, state_type, mutating)
 ACCS = {
     'add': (lambda a, i: a + i, 'int', 'int', False),
@@ -172,6 +205,8 @@ ACCS = {
     'r_list': (lambda a, r: a + [r.v], 'rec', 'list', False),
     # an accumulator that legitimately returns None now and then ("reset"); only with factory seeds, so that the
     # multiplexed state lives in an object list (a typed array could not hold None)
+    'obj_add': (_obj_add, 'int', 'accobj', True),
+    'tupobj_add': (_tupobj_add, 'int', 'tupobj', True),
     'nreset': (lambda a, i: None if i % 4 == 3 else (0 if a is None else a) + i, 'int', 'optfac', False),
 }
 
@@ -190,6 +225,9 @@ SEEDS = {
     'dq_fac': (lambda: _mk_deque, 'deque', True),
     't00': (lambda: (0, 0), 'tup2', False),
     't_empty': (lambda: (), 'tup', False),
+    'obj_val': (lambda: AccObj(), 'accobj', False),          # value seed: rxsci must deep copy it per key although it is hashable
+    'obj_fac': (lambda: AccObj, 'accobj', True),
+    'tupobj_val': (lambda: (AccObj(), 0), 'tupobj', False),
     'fac5': (lambda: (lambda: 5), 'optfac', True),
     'fac_none': (lambda: (lambda: None), 'optfac', True),
 }
@@ -241,7 +279,7 @@ def terms_for(state_type):
 
 # what item type a scan state becomes once emitted
 STATE_ITEM_TYPE = {'int': 'int', 'float': 'float', 'bool': 'any', 'list': 'list',
-                   'dict': 'any', 'deque': 'any', 'tup': 'any', 'tup2': 'any', 'optfac': 'optint'}
+                   'dict': 'any', 'deque': 'any', 'tup': 'any', 'tup2': 'any', 'optfac': 'optint', 'accobj': 'any', 'tupobj': 'any'}
 
 
 # ---- functions handed to rxsci by the program builder (kept here so that an exception raised inside them is
@@ -264,6 +302,18 @@ def time_of_hours(r):
 
 def time_of_days(r):
     return _EPOCH + _td(days=r.t, microseconds=r.t)
+
+
+def time_of_np_int(r):
+    return _np.int64(r.t)                 # comparisons on numpy scalars answer numpy.bool_
+
+
+def time_of_np_float(r):
+    return _np.float64(r.t)
+
+
+def time_of_np_dt64(r):
+    return _np.datetime64('2020-01-01T00:00:00') + _np.timedelta64(int(r.t), 's')
 
 
 def closing_of(r):
